@@ -106,20 +106,24 @@ def seq_unit(unit: Tuple[int, Tuple[int, ...]]) -> Part:
 # ---------------------------------------------------------------------------------------------
 # (c) interleavings
 # ---------------------------------------------------------------------------------------------
-SHAPES = {"SF": 5, "FF+1CF": 10, "FF+2CF": 18, "FF+17CF": 6 + 7 * 16 + 4}
+SHAPES = {"SF": 5, "FF+1CF": 10, "FF+2CF": 18, "FF+17CF": 6 + 7 * 16 + 4, "FD3": 150, "FD2": 20}
 
 
-def scripts_for(combo: Tuple[Tuple[str, ...], ...]) -> List[Tuple[List[bytes], List[bytes]]]:
+def scripts_for(combo: Tuple[Tuple[str, ...], ...]) -> List[Tuple[List[bytes], List[bytes], List[int]]]:
     """combo[i] = tuple of shape names sent on IDS[i]; returns per ID (frames, telegrams)."""
     out = []
     for i, shapes in enumerate(combo):
         frames: List[bytes] = []
         tel: List[bytes] = []
+        counts: List[int] = []
         for k, sh in enumerate(shapes):
-            p = pattern(SHAPES[sh], 16 * i + k)
+            name, _, dl = sh.partition("@")  # "FD3@64": this telegram travels in 64-byte CAN FD frames
+            p = pattern(SHAPES[name], 16 * i + k)
             tel.append(p)
-            frames += segment(p, 8, [0xAA, None, 0x00][i % 3])
-        out.append((frames, tel))
+            fr = segment(p, int(dl) if dl else 8, [0xAA, None, 0x00][i % 3])
+            counts.append(len(fr))
+            frames += fr
+        out.append((frames, tel, counts))
     return out
 
 
@@ -138,9 +142,11 @@ class IlState:
 
     def impl_state(self) -> Any:
         sm = self.sm
+        known = {"_telegram_specified_len", "_telegram_data", "_telegram_last_rx_fragment_idx"}
+        other = tuple(sorted((k, repr(v)) for k, v in vars(sm).items() if k not in known and not callable(v)))  # caches etc. are state too
         try:
             return (tuple(sm._telegram_specified_len), tuple(None if d is None else bytes(d) for d in sm._telegram_data),
-                    tuple(sm._telegram_last_rx_fragment_idx))
+                    tuple(sm._telegram_last_rx_fragment_idx), other)
         except AttributeError:
             return repr(sorted(sm.__dict__.items()))
 
@@ -196,7 +202,7 @@ class IlState:
         # safety: what has been reported for each ID is a prefix of what was sent, and everything whose last
         # frame has been delivered has been reported
         for j in range(s.n):
-            frames, tel = s.scripts[j]
+            frames, tel, _counts = s.scripts[j]
             exp = expected_after(s, j)
             if s.out[j] != exp:
                 s.problems.append((f"C12/interleave/wrong-telegrams/{kind}",
@@ -206,11 +212,11 @@ class IlState:
 
 
 def expected_after(s: IlState, j: int) -> List[bytes]:
-    frames, tel = s.scripts[j]
+    frames, tel, counts = s.scripts[j]
     done = 0
     exp: List[bytes] = []
-    for p in tel:
-        done += len(segment(p, 8, None))
+    for p, nfr in zip(tel, counts):
+        done += nfr
         if s.pos[j] >= done:
             exp.append(p)
     return exp
@@ -460,7 +466,7 @@ def run(ctx: Ctx) -> None:
             sunits.append((tx_dl, (a, a, a), "same"))
     pmap(ctx, seq_unit, sunits, chunksize=8)
     # (c)
-    shapes = list(SHAPES)
+    shapes = list(SHAPES)[:4]
     combos: List[Tuple[Tuple[Tuple[str, ...], ...], int, int]] = []
     for a in shapes:
         for b in shapes:
@@ -477,6 +483,12 @@ def run(ctx: Ctx) -> None:
                     if q and (a, a2) > (b, b2):
                         continue
                     combos.append((((a, a2), (b, b2)), 1, 2 if (a, a2, b, b2).count("SF") >= 2 else 1))
+    # IDs that use different frame sizes at the same time (classic next to CAN FD)
+    for a in ("FD3@64", "FD2@12"):
+        for b in ("FF+2CF", "FF+1CF", "SF"):
+            combos.append((((a,), (b,)), 1, 1))
+            combos.append((((b,), (a,)), 1, 1))
+    combos.append(((("FD3@64",), ("FF+2CF",), ("FD2@12",)), 0, 1))
     if not q:
         combos.append(((("FF+17CF", "SF"), ("SF", "FF+17CF")), 1, 1))
         combos.append(((("FF+2CF", "FF+2CF", "SF"), ("FF+1CF", "SF", "FF+2CF")), 1, 1))
